@@ -14,7 +14,9 @@ validating and sorting, `WritePayloadLength`); `decode` follows `decodeBasedOnTy
 `ReadSequenceOfObjects` re-slicing per item, `ReadPayloadLength`, `CheckTypePrefix`,
 `GetObjectType`).  Outcomes are `ok | err | panic` so that the places where the Go code panics
 stay visible.  The model is the code *after* the `fix:` commits 8805e2e (arrays), 2f92ee4 (nil
-embedded pointer), 0c80050 (GetByValue), 41a09a2 (uint64 length prefix), 262f59b (TimeToUint64).
+embedded pointer), 0c80050 (GetByValue), 41a09a2 (uint64 length prefix), 262f59b (TimeToUint64),
+224b785 (sliceFromArray), 3a2407b (lexical order without duplicates), eec6277 (byte-array bounds on
+decode), a0f81e4 (must-occur on a nil element).
 
 Not modelled: reflection itself, user supplied `Serializable`/`Deserializable` implementations and
 syntactic validators (parameters of the API), the text of errors (all errors are `err`).  Because
@@ -360,16 +362,13 @@ def adjOk (R : Bytes → Bytes → Bool) : List Bytes → Bool
 def typeUnique (w : Nat) (bs : List Bytes) : Bool :=
   bs.all (fun b => w ≤ b.length) && nodupB (bs.map (fun b => b.take w))
 
-/-- `ArrayRules.ElementValidationFunc` applied to the elements in order.  `writeSide`: in
-`WriteSliceOfByteSlices` an element with an empty encoding is a nil slice, which
-`LexicalOrderWithoutDupsValidator` takes for "no previous element"; in `ReadSequenceOfObjects` the
-element slices are never nil. -/
-def validSeq (r : Rules) (writeSide : Bool) (bs : List Bytes) : Bool :=
+/-- `ArrayRules.ElementValidationFunc` applied to the elements in order — the same function on the
+write side (`WriteSliceOfByteSlices`) and on the read side (`ReadSequenceOfObjects`) since fix 3a2407b
+(`LexicalOrderWithoutDupsValidator` used to take an empty, i.e. nil, previous element on the write side
+for "no previous element"). -/
+def validSeq (r : Rules) (bs : List Bytes) : Bool :=
   (if r.noDups && !r.lex then nodupB bs else true) &&
-  (if r.lex then
-     (if r.noDups then adjOk (fun a b => (writeSide && a.isEmpty) || lexLt a b) bs
-      else adjOk lexLe bs)
-   else true) &&
+  (if r.lex then (if r.noDups then adjOk lexLt bs else adjOk lexLe bs) else true) &&
   (if r.one8 then typeUnique 1 bs else true) &&
   (if r.one32 then typeUnique 4 bs else true)
 
@@ -379,7 +378,7 @@ def encSeq (lp : LP) (r : Rules) (o : Opts) (data : List Bytes) : Res Bytes := d
   require (!o.validation || r.boundsOk data.length)
   let pre ← writeLen lp data.length
   let data' := if r.autoSort && r.lex then sortBytes data else data
-  require (!o.validation || validSeq r true data')
+  require (!o.validation || validSeq r data')
   pure (pre ++ data'.flatten)
 
 def mapMRes {α β : Type} (f : α → Res β) : List α → Res (List β)
@@ -411,10 +410,11 @@ def Ty.ownCode : Ty → Option Nat
   | _ => none
 
 /-- The object code `checkArrayMustOccur` finds for an element (registered settings of the
-dereferenced concrete type).  Dereferencing a nil pointer/interface element panics. -/
+dereferenced concrete type).  A nil pointer/interface element is an error (fix a0f81e4; it used to
+panic). -/
 def Ty.codeOf : Ty → Val → Res Nat
-  | .ptr _, .nil => .panic
-  | .iface _ _, .nil => .panic
+  | .ptr _, .nil => .err
+  | .iface _ _, .nil => .err
   | .ptr t, _ => match t.ownCode with | some c => .ok c | none => .err
   | .iface _ alts, .alt c _ => if (alts.find? c).isSome then .ok c else .err
   | t, _ => match t.ownCode with | some c => .ok c | none => .err
@@ -469,9 +469,10 @@ def decKV (dk dv : Bytes → Res (Val × Nat)) (b : Bytes) : Res (Val × Nat) :=
 
 mutual
 /-- `encodeBasedOnType`.  `pre`: the call came through `API.encode`, so with validation the bounds
-of the type settings are checked against the value's length first (`checkMinMaxBounds`; only
-observable for byte arrays, everywhere else the same bounds are checked again further down);
-a pointer hands its target to `encodeStruct`/`encodeArray` directly (`pre = false`). -/
+of the type settings are checked against the value's length first (`checkMinMaxBounds`); a pointer
+hands its target to `encodeStruct`/`encodeArray` directly (`pre = false`).  Not observable any more:
+the same bounds are checked again further down (byte arrays: in `encodeArray`/`decodeArray` since fix
+eec6277) and no failure between the two checks can be a panic. -/
 def enc : Ty → Bool → Val → Opts → Res Bytes
   | .bool, _, .n x, _ => if x < 2 then .ok [UInt8.ofNat x] else .err
   | .uint w, _, .n x, _ => if x < 256 ^ w then .ok (leBytes w x) else .err
@@ -489,9 +490,9 @@ def enc : Ty → Bool → Val → Opts → Res Bytes
     require (boundsOk mn mx bs.length)
     let pre ← writeLen lp bs.length
     pure (pre ++ bs)
-  | .byteArr n code mn mx, pre, .x bs, o =>
+  | .byteArr n code mn mx, _, .x bs, o =>
     if bs.length ≠ n then .err
-    else if pre && o.validation && !boundsOk mn mx n then .err
+    else if o.validation && !boundsOk mn mx n then .err
     else .ok (codeBytes code ++ bs)
   | .u256, _, .i x, _ => if 0 ≤ x ∧ x < (2 : Int) ^ 256 then .ok (leBytes 32 x.toNat) else .err
   | .time, _, .i x, _ => .ok (leBytes 8 (timeToU64 x))
@@ -571,7 +572,7 @@ def decSeqBody (item : Bytes → Res (Val × Nat)) (r : Rules) (o : Opts) (count
     Res (List (Val × Bytes) × Nat) := do
   require (!o.validation || r.boundsOk count)
   let (items, m) ← decLoop item count (b.drop w)
-  require (!o.validation || validSeq r false (items.map (·.2)))
+  require (!o.validation || validSeq r (items.map (·.2)))
   pure (items, w + m)
 
 mutual
@@ -596,7 +597,8 @@ def dec : Ty → Bytes → Opts → Res (Val × Nat)
     require (boundsOk mn mx l)
     if (b.drop w).length < l then .err else
     pure (.x ((b.drop w).take l), w + l)
-  | .byteArr n code _ _, b, _ => do
+  | .byteArr n code mn mx, b, o => do
+    require (!o.validation || boundsOk mn mx n)
     let cw ← readCode code b
     if (b.drop cw).length < n then .err else
     pure (.x ((b.drop cw).take n), cw + n)
